@@ -169,7 +169,8 @@ class MediaQuery(cssutils.util._NewBase):  # cssutils.util.Base):
             strs = [x.value for x in seq if isinstance(x.value, str)]
             if strs and not (
                 strs[-1] == ')'
-                or ('media_type' in store and strs[-1] == store['media_type'].value)
+                if '(' in strs
+                else ('media_type' in store and strs[-1] == store['media_type'].value)
             ):
                 ok = False
                 self._log.error(
